@@ -412,7 +412,14 @@ class MeanField(Collection, Dict[Variable, AbstractMessage], Factor):
             with LogWarnings(
                 logger=_log_projection_warnings, action="always"
             ) as caught_warnings:
-                if isinstance(delta, MeanField) or delta < 1:
+                if isinstance(delta, MeanField):
+                    # per-variable deltas: rescale treats an exponent of exactly
+                    # 0 or 1 as "no message" / "the message itself" instead of
+                    # building the improper message ** 0.0
+                    factor_dist = (
+                        self.rescale(delta) * last_dist.rescale(1 - delta)
+                    ) / cavity_dist.rescale(delta)
+                elif delta < 1:
                     factor_dist = (
                         self ** delta * last_dist ** (1 - delta)
                     ) / cavity_dist ** delta
